@@ -150,6 +150,20 @@ pub fn policy(rng: &mut Rng, c: &Cfg, flavor: Flavor) -> Policy {
     }
 }
 
+/// Uniform link latency for a walk: a quarter of the in-envelope policies run
+/// over a link where *every* packet takes the same 1..dmax rounds (dmax from
+/// the policy's drop budget), like `Latency::fixed` in the fixtures.
+fn latency_for(rng: &mut Rng, c: &Cfg, p: &Policy) -> u32 {
+    if p.max_drops >= c.retx_max || p.blackhole.is_some() || c.loopback {
+        return 0;
+    }
+    let dmax = crate::oracle::max_hold_for(c, p.max_drops).unwrap_or(0);
+    if dmax == 0 || !rng.chance(0.25) {
+        return 0;
+    }
+    rng.range(1, dmax as u64) as u32
+}
+
 /// Receive buffers beyond the 16-bit window field (>= 128 KiB): a transfer
 /// larger than the buffer, a reader that lags until the window closes and then
 /// drains with reads far below half the buffer.
@@ -182,12 +196,14 @@ fn big_buffer_walk(rng: &mut Rng, flavor: Flavor) -> Scn {
     let small = dir(rng, &c, flavor, 60);
     let (c2s, s2c) = if rng.coin() { (big, small) } else { (small, big) };
     let p = policy(rng, &c, flavor);
+    let latency = latency_for(rng, &c, &p);
     Scn {
         cfg: c,
         c2s,
         s2c,
         sched: Sched::Random(p),
         order: if rng.chance(0.8) { Order::Emission } else { Order::Shuffle(rng.next_u64() >> 16) },
+        latency,
     }
 }
 
@@ -211,12 +227,14 @@ pub fn walk(rng: &mut Rng, flavor: Flavor) -> Scn {
         1..=3 => Order::Shuffle(rng.next_u64() >> 16),
         _ => Order::Emission,
     };
+    let latency = latency_for(rng, &c, &p);
     Scn {
         cfg: c,
         c2s,
         s2c,
         sched: Sched::Random(p),
         order,
+        latency,
     }
 }
 
